@@ -358,6 +358,11 @@ func (ebo ExpBackOff) RetryWithCtx(ctx context.Context, retries int, f Func) err
 			}
 			return re
 		case <-delay.C:
+			// select picks at random when the timer is due and ctx has ended as well
+			if ctxErr := ctx.Err(); ctxErr != nil {
+				re.MainErr = ctxErr
+				return re
+			}
 		}
 
 		// try the operation
